@@ -272,6 +272,7 @@ impl DOPRI5 {
 
             // Check for underflow due to machine rounding
             if 0.1 * h.abs() <= x.abs() * uround {
+                #[cfg(ivp_verif)] crate::verif_trace::emit("dp_small", 1.0);
                 status = Status::StepSizeTooSmall;
                 break;
             }
@@ -280,6 +281,7 @@ impl DOPRI5 {
             if (x + 1.01 * h - xend) * posneg > 0.0 {
                 h = xend - x;
                 last = true;
+                #[cfg(ivp_verif)] crate::verif_trace::emit("dp_land", 1.0);
             }
 
             steps.total += 1;
@@ -359,6 +361,7 @@ impl DOPRI5 {
                 // Step accepted
                 facold = err.max(1.0e-4);
                 steps.accepted += 1;
+                #[cfg(ivp_verif)] crate::verif_trace::emit("dp_acc", steps.accepted as f64);
 
                 // Stiffness detection
                 if (steps.accepted % nstiff == 0) || (iasti > 0) {
@@ -375,6 +378,7 @@ impl DOPRI5 {
                     if stden > 0.0 {
                         hlamb = h.abs() * (stnum / stden).sqrt();
                     }
+                    #[cfg(ivp_verif)] crate::verif_trace::emit("dp_stiff", if hlamb > 3.25 { 1.0 } else { 0.0 });
                     if hlamb > 3.25 {
                         nonstiff = 0;
                         iasti += 1;
@@ -450,6 +454,7 @@ impl DOPRI5 {
                 }
             } else {
                 // Step rejected
+                #[cfg(ivp_verif)] crate::verif_trace::emit("dp_rej", 1.0);
                 hnew = h / facc1.min(fac11 / safety_factor);
                 reject = true;
                 if steps.accepted > 1 {
